@@ -6,7 +6,7 @@ namespace PttVerif.C14
 
 /-- the thread owns its process's lock-table entry. -/
 def owns : PC → Bool
-  | .wantFlock | .haveLock | .seeked _ | .written _ | .unlocked _ => true
+  | .wantFlock | .haveLock | .seeked _ | .written _ | .unlocked _ | .lockFailed => true
   | _ => false
 
 /-- the thread's open file description holds the flock. -/
@@ -54,7 +54,7 @@ theorem writeRec_at_end (recs : List (Option Nat)) (t : Nat) :
 
 /-- every atomic step preserves the invariant. -/
 theorem inv_step (proc : Nat → Nat) (n0 : Nat) (s s' : Sys) (t : Nat)
-    (inv : Inv proc n0 s) (h : step proc s t = some s') : Inv proc n0 s' := by
+    (inv : Inv proc n0 s) (h : step proc true s t = some s') : Inv proc n0 s' := by
   unfold step at h
   cases hpc : s.pc t with
   | start =>
@@ -329,10 +329,81 @@ theorem inv_step (proc : Nat → Nat) (n0 : Nat) (s s' : Sys) (t : Nat)
       exact ⟨ws, h1, h2, by intro u; simp only []; rw [(hh u).2]; exact h3 u⟩
   | doneOk i => rw [hpc] at h; simp at h
   | doneErr => rw [hpc] at h; simp at h
+  | lockFailed =>
+    -- the lock function removes the key again and returns the kernel's error
+    rw [hpc] at h
+    simp only [if_true, Option.some.injEq] at h
+    subst h
+    have htowns : owns (s.pc t) = true := by rw [hpc]; rfl
+    have hh : ∀ u, holds (setPc s t .doneErr u) = holds (s.pc u)
+        ∧ wroteAt (setPc s t .doneErr u) = wroteAt (s.pc u) := by
+      intro u
+      by_cases hu : u = t
+      · subst hu; simp [hpc, holds, wroteAt]
+      · simp [setPc_other _ _ _ _ hu]
+    refine ⟨?_, ?_, ?_, ?_, ?_, ?_, ?_⟩
+    · intro u; simp only []; rw [(hh u).1]; exact inv.holder_iff u
+    · intro u hu
+      simp only [] at hu
+      have hut : u ≠ t := by intro e; subst e; simp [owns] at hu
+      rw [setPc_other _ _ _ _ hut] at hu
+      have hp : proc u ≠ proc t := fun e => hut (inv.owner_unique u t hu htowns e)
+      simp only [setTable, hp, if_false]
+      exact inv.owns_table u hu
+    · intro u v hu hv hp
+      simp only [] at hu hv
+      have hut : u ≠ t := by intro e; subst e; simp [owns] at hu
+      have hvt : v ≠ t := by intro e; subst e; simp [owns] at hv
+      rw [setPc_other _ _ _ _ hut] at hu; rw [setPc_other _ _ _ _ hvt] at hv
+      exact inv.owner_unique u v hu hv hp
+    · intro p hp
+      simp only [setTable] at hp
+      by_cases hpt : p = proc t
+      · simp [hpt] at hp
+      · simp only [hpt, if_false] at hp
+        obtain ⟨w, hw1, hw2⟩ := inv.table_owner p hp
+        have hwt : w ≠ t := fun e => hpt (by rw [← hw1, e])
+        exact ⟨w, hw1, by simp only [setPc_other _ _ _ _ hwt]; exact hw2⟩
+    · intro u j hu
+      by_cases hut : u = t
+      · subst hut; simp at hu
+      · simp only [setPc_other _ _ _ _ hut] at hu; exact inv.seeked_len u j hu
+    · intro u j hu; simp only [] at hu; rw [(hh u).2] at hu; exact inv.written_at u j hu
+    · obtain ⟨ws, h1, h2, h3⟩ := inv.writers
+      exact ⟨ws, h1, h2, by intro u; simp only []; rw [(hh u).2]; exact h3 u⟩
 
-theorem reachable_inv (proc : Nat → Nat) (n0 : Nat) (s : Sys) (h : Reachable proc n0 s) : Inv proc n0 s := by
+/-- a failing kernel lock call preserves the invariant (the key is still in the table, owned by `t`). -/
+theorem inv_fail (proc : Nat → Nat) (n0 : Nat) (s s' : Sys) (t : Nat)
+    (inv : Inv proc n0 s) (h : failStep s t = some s') : Inv proc n0 s' := by
+  unfold failStep at h
+  cases hpc : s.pc t <;> rw [hpc] at h <;> simp only [Option.some.injEq, reduceCtorEq] at h
+  subst h
+  have hh : ∀ u, holds (setPc s t .lockFailed u) = holds (s.pc u)
+      ∧ owns (setPc s t .lockFailed u) = owns (s.pc u)
+      ∧ wroteAt (setPc s t .lockFailed u) = wroteAt (s.pc u) := by
+    intro u
+    by_cases hu : u = t
+    · subst hu; simp [hpc, holds, owns, wroteAt]
+    · simp [setPc_other _ _ _ _ hu]
+  refine ⟨?_, ?_, ?_, ?_, ?_, ?_, ?_⟩
+  · intro u; simp only []; rw [(hh u).1]; exact inv.holder_iff u
+  · intro u; simp only []; rw [(hh u).2.1]; exact inv.owns_table u
+  · intro u v; simp only []; rw [(hh u).2.1, (hh v).2.1]; exact inv.owner_unique u v
+  · intro p hp
+    obtain ⟨w, hw1, hw2⟩ := inv.table_owner p hp
+    exact ⟨w, hw1, by simp only []; rw [(hh w).2.1]; exact hw2⟩
+  · intro u i hu
+    by_cases hut : u = t
+    · subst hut; simp at hu
+    · simp only [setPc_other _ _ _ _ hut] at hu; exact inv.seeked_len u i hu
+  · intro u i hu; simp only [] at hu; rw [(hh u).2.2] at hu; exact inv.written_at u i hu
+  · obtain ⟨ws, h1, h2, h3⟩ := inv.writers
+    exact ⟨ws, h1, h2, by intro u; simp only []; rw [(hh u).2.2]; exact h3 u⟩
+
+theorem reachable_inv (proc : Nat → Nat) (n0 : Nat) (s : Sys) (h : Reachable proc true n0 s) : Inv proc n0 s := by
   induction h with
   | init => exact inv_init proc n0
   | step t _ hs ih => exact inv_step proc n0 _ _ t ih hs
+  | fail t _ hs ih => exact inv_fail proc n0 _ _ t ih hs
 
 end PttVerif.C14
